@@ -65,6 +65,14 @@ type Engine struct {
 	Wraps map[ssa.Instruction][2]int
 	// AccessHook is called (checking mode) for every read extent on a slice: index+1, slice high bound, or low+N for binary.BigEndian reads.
 	AccessHook func(e *Engine, st *State, in ssa.Instruction, base ssa.Value, extent Lin)
+	// Opaque functions are not evaluated: results unconstrained, memory untouched (client-verified purity).
+	Opaque map[*ssa.Function]bool
+	// WrapLCong: record w ≡ e (mod 2^width) for every wrapped result w of expression e.
+	WrapLCong bool
+	// HooksAlways: CallHook/ExternalHook also fire during fixpoint iteration (for hooks that bind ghost atoms).
+	HooksAlways bool
+	// ExternalHook is called (checking mode) before the model of an external call is applied.
+	ExternalHook func(e *Engine, st *State, in *ssa.Call, name string, args []ssa.Value)
 	// PostCallHook is called on every state in which a package-local call returns (result already bound to the call value).
 	PostCallHook func(e *Engine, st *State, in *ssa.Call, callee *ssa.Function)
 	// CallHook is called (checking mode) before a package-local call is evaluated.
@@ -513,7 +521,7 @@ func (e *Engine) EvalMethodOn(st *State, fn *ssa.Function, src ssa.Value) []Meth
 	_, srcIsStruct := src.Type().Underlying().(*types.Struct)
 	if pt, ok := p.Type().Underlying().(*types.Pointer); ok && srcIsStruct {
 		// pointer receiver, value source: materialise a temporary object holding the value
-		obj := "Q" + e.vid(src)[1:]
+		obj := e.TempObject(src)
 		e.copyLeaves(s, obj, e.aggKey(src), pt.Elem(), true)
 		e.fresh(s, p)
 		s.nonnil[e.vid(p)] = true
@@ -524,11 +532,7 @@ func (e *Engine) EvalMethodOn(st *State, fn *ssa.Function, src ssa.Value) []Meth
 			s.nonnil[e.vid(p)] = true
 		}
 	}
-	saved := e.stack
-	fr := &frame{fn: fn}
-	_ = fr
 	rets, _ := e.Eval(fn, s, false, nil)
-	e.stack = saved
 	var out []MethodRet
 	for _, r := range rets {
 		mr := MethodRet{St: r.st, Results: r.ret.Results}
@@ -550,4 +554,36 @@ func (e *Engine) IsNonNilResult(st *State, v ssa.Value) bool { return e.isNonNil
 func (e *Engine) AtomOfValue(v ssa.Value) Atom               { return e.atomOf(v) }
 func (e *Engine) NewGhost(name string, lo, hi int64) Atom {
 	return e.newAtom(name, Range{lo, hi, true, true})
+}
+
+// AddrOfValue resolves a pointer value to its abstract address.
+func (e *Engine) AddrOfValue(st *State, v ssa.Value) (Address, bool) { return e.addrOf(st, v) }
+
+// AllocObject is the abstract object of an allocation site.
+func (e *Engine) AllocObject(a *ssa.Alloc) string { return e.allocObj(a) }
+
+// StructFieldExpr is the integer value of field idx of the struct value v.
+func (e *Engine) StructFieldExpr(st *State, v ssa.Value, idx int) Lin {
+	stt, ok := v.Type().Underlying().(*types.Struct)
+	if !ok || idx >= stt.NumFields() || !(isInt(stt.Field(idx).Type()) || isBool(stt.Field(idx).Type())) {
+		return Lin{Bad: true}
+	}
+	key := fmt.Sprintf("%s.f%d", e.aggKey(v), idx)
+	return st.Subst(Var(e.cellInt(key, stt.Field(idx).Type())))
+}
+
+// TempObject is the abstract object EvalMethodOn uses to hold the by-value receiver src.
+func (e *Engine) TempObject(src ssa.Value) string { return "Q" + e.vid(src)[1:] }
+
+// AggObject is the pseudo-object holding the aggregate (struct) value v.
+func (e *Engine) AggObject(v ssa.Value) string { return e.aggKey(v) }
+
+// StructFieldLenExpr is the length of the slice/string field idx of the struct value v.
+func (e *Engine) StructFieldLenExpr(st *State, v ssa.Value, idx int) Lin {
+	stt, ok := v.Type().Underlying().(*types.Struct)
+	if !ok || idx >= stt.NumFields() || !isSliceLike(stt.Field(idx).Type()) {
+		return Lin{Bad: true}
+	}
+	key := fmt.Sprintf("%s.f%d", e.aggKey(v), idx)
+	return st.Subst(Var(e.cellLen(key)))
 }
